@@ -248,6 +248,22 @@ func (e *Engine) VerifyFunc(t unitTarget) *Unit {
 			c.binds[cl.Label] = env.eval(st, st, cl.Expr)
 		}
 	}
+	// locks the caller holds on entry (`holds x.mu`)
+	if t.spec != nil {
+		for _, raw := range t.spec.Extra["holds"] {
+			ex, err := parseSpecExpr(raw)
+			if err != nil {
+				u.specErrors = append(u.specErrors, t.spec.Where+": holds: "+err.Error())
+				continue
+			}
+			k, idx := env.specLockKey(st, st, ex)
+			st.locks[k] = 1
+			if idx != nil {
+				st.lockIdx[k] = idx
+			}
+			u.heldAtEntry = append(u.heldAtEntry, k)
+		}
+	}
 	// entry snapshot
 	c.oldState = st.fork()
 	u.entry = c.oldState
@@ -417,13 +433,26 @@ func (c *ExecCtx) checkExit(st *State, sig *types.Signature, pos token.Pos) {
 		}
 		c.checkFrame(st, env, pos)
 	}
-	// lock balance
-	if len(st.locks) > 0 || len(st.condLocks) > 0 {
+	// lock balance (locks held on entry by contract stay held)
+	for _, k := range u.heldAtEntry {
+		if _, ok := st.locks[k]; !ok {
+			u.obligeStatic(st, "lock", false, pos, "lock "+k+" held on entry must still be held at return")
+		}
+	}
+	if c.extraLocks(st) {
 		allowed := c.spec != nil && len(c.spec.Extra["acquires"]) > 0
 		if !allowed {
 			var ks []string
 			for k := range st.locks {
-				ks = append(ks, k)
+				skip := false
+				for _, e := range u.heldAtEntry {
+					if e == k {
+						skip = true
+					}
+				}
+				if !skip {
+					ks = append(ks, k)
+				}
 			}
 			for _, cl := range st.condLocks {
 				ks = append(ks, cl.key+"(conditional)")
@@ -745,4 +774,21 @@ func (u *Unit) exitReach(exits []*State, pos token.Pos) {
 		Name: fmt.Sprintf("%s#vacuity.%d", u.name, u.kindN["vacuity"]), Unit: u.name, Kind: "vacuity", Pos: u.pos(pos),
 		Desc: "some exit of the function is reachable (assumptions are consistent)", Assumes: as, Goal: False,
 	})
+}
+
+
+func (c *ExecCtx) extraLocks(st *State) bool {
+	n := len(st.condLocks)
+	for k := range st.locks {
+		held := false
+		for _, e := range c.u.heldAtEntry {
+			if e == k {
+				held = true
+			}
+		}
+		if !held {
+			n++
+		}
+	}
+	return n > 0
 }
